@@ -346,6 +346,16 @@ impl Previewer {
         }
     }
 
+    /// the preview lines currently held, with their attributes
+    pub fn verif_content_lines(&self) -> Vec<AnsiString<'static>> {
+        self.content_lines.lock().iter().cloned().collect()
+    }
+
+    /// the number of selected items the most recent request was made for
+    pub fn verif_prev_num_selected(&self) -> usize {
+        self.prev_num_selected
+    }
+
     /// (vertical, horizontal) scroll offsets, 1-based as stored
     pub fn verif_scroll(&self) -> (usize, usize) {
         (
